@@ -132,19 +132,38 @@ class AGen:
             return {"k": kind, "maxsize": r.choice([1, 1, 2, 3])}
         if kind == "map_async":
             return {"k": kind, "parallelism": r.choice([1, 1, 2, 3])}
-        if kind == "plain":
+        if kind in ("plain", "flatten"):
             return {"k": kind}
         raise KeyError(kind)
 
+    def value(self):
+        if self.kind == "flatten":
+            # the elements are LISTS of 1-3 fresh items (sometimes none)
+            items = []
+            for _ in range(self.r.choice([0, 1, 2, 2, 3, 3])):
+                items.append(self.nextval)
+                self.nextval += 1
+            return val_to_json(items)
+        if self.none_at is not None and self.nextval == self.none_at:
+            return None
+        return val_to_json(self.nextval)
+
     def case(self, kind):
         r = self.r
+        self.kind = kind
         sp = self.spec(kind)
         sink = r.choice(["ctl", "ctl", "coro", "tornado", "sync"])
         acts = []
         nrc = 0
         n = r.randint(1, self.max_actions)
         nsrc = 2 if kind == "zip" else (3 if kind == "zip3" else 1)
-        self.nextval = 0
+        # values: 1, 2, 3, ... or 0, 1, 2, ... (a falsy first element); for nodes whose value is never used as a number,
+        # one of the elements may be None (a legal element like any other)
+        self.nextval = r.choice([0, -1])
+        self.none_at = None
+        if kind in ("buffer", "delay", "rate_limit", "timed_window", "latest", "plain", "zip", "zip3") or (kind == "partition" and sp.get("key") is None):
+            if r.random() < 0.3:
+                self.none_at = r.choice([0, 1, 1, 2, 3, 4])
         pe = r.choice([0.3, 0.5, 0.7])
         # timing nodes: half of the cases let elements trickle in (a short advance after every emit), so that timers are
         # armed, re-armed and hit while partitions / windows are partly filled
@@ -165,7 +184,7 @@ class AGen:
                             md.append([nrc, True])
                             nrc += 1
                         self.nextval += 1
-                        subs.append(["emit", r.randrange(nsrc), val_to_json(self.nextval), md])
+                        subs.append(["emit", r.randrange(nsrc), self.value(), md])
                     elif kind == "map_async" and v < 0.8:
                         subs.append(["task", r.choice([0, 0, 1])])
                     elif v < 0.62 and self.block and kind in ("rate_limit", "delay", "buffer", "plain", "map_async"):
@@ -183,7 +202,7 @@ class AGen:
                         md.append([nrc, r.random() < 0.85])
                         nrc += 1
                 self.nextval += 1
-                acts.append(["emit", r.randrange(nsrc), val_to_json(self.nextval), md])
+                acts.append(["emit", r.randrange(nsrc), self.value(), md])
                 if trickle:
                     acts.append(["adv", r.choice([1, 1, 2, 3])])
             elif u < pe + (1 - pe) * 0.55:
@@ -194,6 +213,8 @@ class AGen:
                 acts.append(["adv", r.choice([1, 1, 2, 3, 4, 4, 5, 8])])
         if self.drain:
             k = sum(1 for a in acts if a[0] == "emit") + sum(len(a[2]) for a in acts if a[0] == "mix") + 3
+            if kind == "flatten":
+                k += max(0, self.nextval)
             for _ in range(k):
                 acts.append(["ack"])
                 if kind == "map_async":
@@ -201,7 +222,7 @@ class AGen:
                 acts.append(["adv", 8])
             acts.append(["ack"])
         case = {"node": sp, "sink": sink, "actions": acts}
-        if self.mix and pmix == 0.0 and kind not in ("zip", "zip3") and r.random() < 0.3 and self.nextval:
+        if self.mix and pmix == 0.0 and kind not in ("zip", "zip3", "flatten") and r.random() < 0.3 and self.nextval >= 1:
             # the consumer reacts to some elements by emitting follow-ups into the source inside the hand-over
             react = {}
             nv = 500
